@@ -894,7 +894,7 @@ def _parse_request_range(
     [0]: http://greenbytes.de/tech/webdav/draft-ietf-httpbis-p5-range-latest.html#byte.ranges
     """
     unit, _, value = range_header.partition("=")
-    unit, value = unit.strip(), value.strip()
+    unit, value = unit.strip(" \t"), value.strip(" \t")
     if unit != "bytes":
         return None
     start_b, _, end_b = value.partition("-")
@@ -929,9 +929,13 @@ def _get_content_range(start: int | None, end: int | None, total: int) -> str:
 
 
 def _int_or_none(val: str) -> int | None:
-    val = val.strip()
+    val = val.strip(" \t")
     if val == "":
         return None
+    # int() alone is too lenient for a header: it accepts signs, underscores,
+    # non-ASCII digits and arbitrary unicode whitespace.
+    if not re.fullmatch(r"[0-9]+", val):
+        raise ValueError("invalid integer %r" % val)
     return int(val)
 
 
